@@ -588,8 +588,9 @@ func (s *Stream) CloseRead() {
 	} else {
 		s.inclosed.set()
 	}
-	discarded := s.in.end - s.in.start
-	s.discardInbufLocked()
+	// Bytes moved to the fast-path read buffer have already been
+	// returned to connection-level flow control by Read.
+	discarded := s.in.end - s.in.start - s.discardInbufLocked()
 	s.in.discardBefore(s.in.end)
 	s.inUnlock()
 	s.conn.handleStreamBytesReadOffLoop(discarded) // must be done with ingate unlocked
@@ -601,12 +602,17 @@ func (s *Stream) CloseRead() {
 // that buffer for reuse, or subsequent fast-path reads would return whatever data
 // the buffer's next user stores in it.
 //
+// It returns the size of the dropped buffer: the number of bytes following s.in.start
+// for which Read has already returned connection-level flow control.
+//
 // The caller must hold ingate.
-func (s *Stream) discardInbufLocked() {
+func (s *Stream) discardInbufLocked() (n int64) {
 	s.inbufmu.Lock()
+	n = int64(len(s.inbuf))
 	s.inbuf = nil
 	s.inbufoff = 0
 	s.inbufmu.Unlock()
+	return n
 }
 
 // CloseWrite aborts writes on the stream.
@@ -863,8 +869,9 @@ func (s *Stream) handleReset(code uint64, finalSize int64) error {
 			return err
 		}
 	}
-	s.conn.handleStreamBytesReadOnLoop(finalSize - s.in.start)
-	s.discardInbufLocked()
+	// Bytes moved to the fast-path read buffer have already been
+	// returned to connection-level flow control by Read.
+	s.conn.handleStreamBytesReadOnLoop(finalSize - s.in.start - s.discardInbufLocked())
 	s.in.discardBefore(s.in.end)
 	s.inresetcode = int64(code)
 	s.insize = finalSize
